@@ -32,4 +32,5 @@ def jobs(tier):
             mk('C02', 'child/yield_await/k1', S.child('yield_await', k=1), max_paths=8000),
         ]
     out += matrix_jobs('C02', 'm1', tier)
+    out += matrix_jobs('C02', 'm2', tier)
     return flat(out)
